@@ -143,3 +143,71 @@ func VerifC01_methodsets() {
 	want2 := vfExpectMask(m, s2, g2, e2, h, w)
 	vfCheckCell(&c, item, want2, "fresh-")
 }
+
+// a struct stored by value whose text lives behind a pointer it shares with the caller
+type vfSharedText struct{ p *string }
+
+func (x vfSharedText) String() string { return *x.p }
+
+// an array stored by value, of pointers shared with the caller: formatted by %v through its elements' String
+type vfPtrText struct{ s string }
+
+func (x *vfPtrText) String() string { return x.s }
+
+// VerifC01_shared: items stored by value (struct, array) that share state with the caller are
+// re-read on Update like any other item; cells stored as items through the table API are kept as cells.
+func VerifC01_shared() {
+	s1 := vfString("s1", 2, vfBYTES)
+	s2 := vfString("s2", 2, vfBYTES)
+	switch vfChoice("kind", 3) {
+	case 0:
+		text := s1
+		item := vfSharedText{&text}
+		c := NewCell(item)
+		vfAssert(c.String() == s1, "text")
+		text = s2
+		vfAssert(c.String() == s1, "stale-text")
+		c.Update()
+		vfAssert(c.String() == s2, "fresh-text")
+		vfAssert(c.Empty() == (s2 == ""), "fresh-empty-iff-text-empty")
+	case 1:
+		e := &vfPtrText{s1}
+		item := [1]*vfPtrText{e}
+		c := NewCell(item)
+		want1 := "[" + s1 + "]"
+		vfAssert(c.String() == want1, "text")
+		e.s = s2
+		c.Update()
+		vfAssert(c.String() == "["+s2+"]", "fresh-text")
+	case 2:
+		// a Cell handed to the table as an item stays the item; its text is the inner cell's snapshot
+		src := &vfPtrText{s1}
+		inner := NewCell(src)
+		t := New()
+		if vfChoice("via", 2) == 0 {
+			t.AddRowItems(inner, "x")
+		} else {
+			t.AddHeaders("h", "i")
+			t.AddRowItems(inner)
+		}
+		got, err := t.CellAt(CellLocation{Row: 1, Column: 1})
+		vfAssert(err == nil, "cell-found")
+		if err != nil {
+			return
+		}
+		vfAssert(got.String() == s1, "nested-text")
+		back, isCell := got.Item().(Cell)
+		vfAssert(isCell, "item-unchanged")
+		if isCell {
+			vfAssert(back.Item() == interface{}(src), "item-unchanged")
+		}
+		src.s = s2
+		got.Update()
+		vfAssert(got.String() == s1, "nested-cell-gives-inner-cells-text")
+		hs := New()
+		hs.AddHeaders(inner)
+		h := hs.Headers()
+		_, hIsCell := h[0].Item().(Cell)
+		vfAssert(hIsCell, "item-unchanged")
+	}
+}
